@@ -258,10 +258,10 @@ def random_ledger(rng, n):
             r = rng.random()
             acct = 'Assets:%s:%s' % (rng.choice(('Bank', 'Broker')), rng.choice(('A', 'B', 'C')))
             if r < 0.35 or not lots:
-                units, cost = amount.Amount(D(rng.randint(-3000, 3000)) / rng.choice((1, 10)), rng.choice(('USD', 'USD', 'EUR'))), None
+                units, cost = amount.Amount(D(rng.randint(-3000, 3000)) / rng.choice((10, 10, 100)), rng.choice(('USD', 'USD', 'EUR'))), None
             elif r < 0.7 or not held:
                 cur, cost = rng.choice(lots)
-                units = amount.Amount(D(rng.randint(1, 200)), cur)
+                units = amount.Amount(D(rng.randint(1, 60)), cur)
                 held[(cur, cost)] = held.get((cur, cost), 0) + units.number
             elif r < 0.8:
                 units, cost = amount.Amount(D(rng.randint(1, 50)), 'HOOL'), None
@@ -377,18 +377,23 @@ def record_hom(ctx, conn, rng, masks, groups, dates, out, prices=None):
 
 
 def mul_in_domain(jpos, jprices, sc):
-    """TLC integers are 32 bit and Mul must be exact: every product the operators can form stays in range"""
+    """TLC integers are 32 bit and Mul must be exact: every product the operators can form for these positions
+    (number x cost, number x any rate quoted for the currency, x any rate quoted for that rate's quote currency)
+    stays in range and is a multiple of the scale"""
     lim = 2 ** 31 - 1
-    rates = [p[3] for p in jprices] + [sc]
+
+    def ok(a, b):
+        return abs(a * b) < lim and (a * b) % sc == 0
     for (cur, cost), n in jpos:
-        if cost[0]:
-            if abs(n * cost[0]) >= lim or (n * cost[0]) % sc:
+        if cost[0] and not ok(n, cost[0]):
+            return False
+        for b1, q1, _, r1 in jprices:
+            if b1 != cur:
+                continue
+            if not ok(n, r1):
                 return False
-        for r1 in rates:
-            if abs(n * r1) >= lim or (n * r1) % sc:
-                return False
-            for r2 in rates:
-                if abs((n * r1 // sc) * r2) >= lim or ((n * r1 // sc) * r2) % sc:
+            for b2, q2, _, r2 in jprices:
+                if b2 == q1 and not ok(n * r1 // sc, r2):
                     return False
     return True
 
@@ -505,7 +510,7 @@ def run(ctx):
     ctx.leg('MC', shipped_counterexample='targets = <<"B","S","B">>: the interposed scan evicts the entry, the second '
             'reference adds the posting again' if '"B", "S", "B"' in r1.behaviour.replace('\n', ' ') else 'see notes')
     # ---- S2C
-    ncases = ctx.pick(1000, 10000)
+    ncases = ctx.pick(1000, 16000)
     w = 8
     res = ctx.tlc('Gen_Balance', 'Gen_Balance_case.cfg', leg='GEN', simulate='num=%d' % (ncases // w), depth=120,
                   seed=ctx.seed, workers=w)
@@ -532,7 +537,7 @@ def run(ctx):
     # ---- C2S
     lines = []
     ex = example_entries(ctx.seed)
-    nwin = ctx.pick(40, 300)
+    nwin = ctx.pick(40, 400)
     for _ in range(nwin):
         entries, npost = window(ex, rng)
         if npost == 0:
@@ -542,7 +547,7 @@ def run(ctx):
             record_serial(ctx, conn, npost, rng, EX_MASKS, lines, suspects)
         for _ in range(3):
             record_hom(ctx, conn, rng, EX_MASKS, EX_GROUPS, EX_DATES, lines)
-    nrnd = ctx.pick(60, 500)
+    nrnd = ctx.pick(60, 700)
     for _ in range(nrnd):
         entries, npost, prices = random_ledger(rng, rng.randint(3, 40))
         conn = hb.connect(entries)
